@@ -118,6 +118,23 @@ def gen_find_extrema_kwargs(rng, fs, f_lo, allow_nseconds=True, allow_none=True)
     return kw
 
 
+def boundary_on_extremum(rng, sig, fs, f_range, filter_kwargs=None, pad=True):
+    """A boundary value that coincides exactly with an extremum index (or with len - index), so that
+    the strictness of the boundary rule is exercised.  None if no suitable extremum exists."""
+    from . import monitors
+    try:
+        p, t, info = monitors.documented_extrema(sig, fs, f_range, 0, None, filter_kwargs, 'bandpass', pad)
+    except Exception:
+        return None
+    n = len(sig)
+    cands = [v for v in (p or []) + (t or []) if 0 <= v < n // 4] + \
+            [n - v for v in (p or []) + (t or []) if v > n - n // 4]
+    cands = [c for c in cands if 0 <= c < n // 3]
+    if not cands:
+        return None
+    return int(cands[int(rng.integers(0, len(cands)))])
+
+
 def gen_thresholds_cycles(rng, full=True):
     thr = dict(amp_fraction_threshold=float(rng.choice([0, .1, .2, .5])),
                amp_consistency_threshold=float(rng.choice([0, .3, .5, .8])),
@@ -161,6 +178,12 @@ def gen_pipeline_case(rng, families=None, methods=('cycles', 'amp'), nsec=(1.0, 
     center = str(rng.choice(['peak', 'trough']))
     method = str(rng.choice(list(methods)))
     fek = gen_find_extrema_kwargs(rng, fs, lo)
+    if fek is not None and rng.random() < 0.25:
+        b = boundary_on_extremum(rng, sig if center == 'peak' else -sig, fs, (lo, hi), fek.get('filter_kwargs'),
+                                 fek.get('pad', True))
+        if b is not None:
+            fek['boundary'] = b
+            kind = kind + '+b'
     route = None
     if method == 'cycles':
         thr = gen_thresholds_cycles(rng, full=rng.random() < 0.7)
